@@ -113,18 +113,20 @@ def run_case(ctx):
     src = ctx.src
     common.draw_env(ctx)
     common.prelude(ctx)
-    m = world.gen_world(src, max_boxes=12, scale=("manyboxes", "farcorner", "manyfields", "longdomain"), scale_rate=80)
+    m = world.gen_world(src, max_boxes=12, scale=("manyboxes", "farcorner", "manyfields", "longdomain", "manyfiles"), scale_rate=40)
     master = os.path.join(ctx.scratch, "master")
     world.write_plotfile(m, master)
     limit = m.nlev - 1
     lim_arg = None
-    if m.nlev > 1 and src.flag("limit"):
+    wide = getattr(m, "scale_cls", None) == "manyfiles"       # (hundreds of tasks per validation: fewer trees)
+    far = getattr(m, "scale_cls", None) == "longdomain"      # (only its finest levels have the large indexes)
+    if m.nlev > 1 and src.flag("limit") and not far:
         limit = src.draw("limit.v", 0, m.nlev - 1)
         lim_arg = limit
     sched_seed = src.draw("sched", 0, 9999)
     quick = ctx.tier == "quick"
     plans = [[]] + enumerate_plans(ctx, m, src, coords=False, accept_biased=True,
-                                   cap_single=60 if quick else 400, n_pairs=8 if quick else 60)
+                                   cap_single=2000 if far else ((20 if wide else 60) if quick else 400), n_pairs=(2 if wide else 8) if quick else 60)
     keys = []
     for n, plan in enumerate(plans):
         # every tree takes the SAME path in turn (anything remembered per path is stale then)
